@@ -8,7 +8,7 @@ ALLOWED_AXIOMS = {"Classical_Prop.classic", "ClassicalDedekindReals.sig_not_dec"
                   "ClassicalDedekindReals.sig_forall_dec",
                   "FunctionalExtensionality.functional_extensionality_dep"}
 MANIFEST = {
-    "text": 'Coq theorems: for every history (shorter than 2^31-1 operations, the AtomicI32 wrap is modelled) paths and ids are mutually inverse and every id is below the counter; id/path/metadata of a registered signal never change; re-registration returns the same id and changes nothing; a refused registration consumes no id. Tied to the code by registration-heavy histories (valid, duplicate, invalid names from a character-level list, inconsistent allowed types, unauthorised callers) with exact id comparison and an identity monitor.',
+    "text": 'Coq theorems: for every history (shorter than 2^31-1 operations, the AtomicI32 wrap is modelled) paths and ids are mutually inverse and every id is below the counter; id/path/metadata of a registered signal never change; re-registration returns the same id and changes nothing; a refused registration consumes no id. Tied to the code by registration-heavy histories (valid, duplicate, invalid names from a character-level list, inconsistent allowed types, unauthorised callers) with exact id comparison and an identity monitor. Also scripted sdv RegisterDatapoints requests with a name repeated inside one request (other metadata), a refused entry between valid ones and existing names, read back through every API.',
     "note": "Trusted: Coq kernel; the 4 standard-library axioms that enter through Flocq (used by validate's float comparisons) as printed by Print Assumptions; extraction + OCaml driver (vm_compute cross-check each run); harness/src/fam_hist.rs and hook H3 (verif_housekeeping_step); the Python monitors. Modelled, not verified: tokio broadcast (ring with capacity rounded up to a power of two, Lagged skipping) and RwLock, HashMap iteration order (outputs are sorted), the gRPC handlers on top of AuthorizedAccess (exercised by the handler-level checks), SystemTime (a timestamp is canonicalised to the operation during which it was taken; expiry is crossed in real time at a TICK).",
 }
 PROPS = set("C16".split(","))
